@@ -45,17 +45,31 @@ func fragmentingFileNamer() fileNamer {
 	return fileNamerFunc(fragmentFileName)
 }
 
+// dirMarker ends the name of every directory of a fragmented key. It is not in the base64url
+// alphabet, so a directory name can never be the file name of another key: a key that is a
+// prefix of a longer key (or whose encoding is a whole number of fragments) keeps a file of its
+// own next to the longer key's directories.
+const dirMarker = "="
+
 func fragmentFileName(key string) string {
 	encoded := base64.RawURLEncoding.EncodeToString([]byte(key))
+	if encoded == "" {
+		return dirMarker // the empty key still needs a file name
+	}
 	if len(encoded) <= 255 { // Common filesystem filename limit
 		return encoded
 	}
 
-	// Fragment the encoded string
+	// Fragment the encoded string: every fragment but the last names a directory.
+	const fragmentData = fragmentSize - len(dirMarker)
 	var parts []string
-	for i := 0; i < len(encoded); i += fragmentSize {
-		end := min(i+fragmentSize, len(encoded))
-		parts = append(parts, encoded[i:end])
+	for i := 0; i < len(encoded); i += fragmentData {
+		end := min(i+fragmentData, len(encoded))
+		if end < len(encoded) {
+			parts = append(parts, encoded[i:end]+dirMarker)
+		} else {
+			parts = append(parts, encoded[i:end])
+		}
 	}
 	return filepath.Join(parts...)
 }
@@ -64,25 +78,26 @@ func fragmentingFileNameKeyer() fileNameKeyer {
 	return fileNameKeyerFunc(fragmentedFileNameToKey)
 }
 
-var filepathSeparatorReplacer = strings.NewReplacer(
-	string(filepath.Separator),
-	"",
-)
-
 func fragmentedFileNameToKey(name string) (string, error) {
-	// Check if the name contains path separators (i.e., is fragmented)
-	if strings.ContainsRune(name, filepath.Separator) {
-		// Handle fragmented path
-		base64Str := filepathSeparatorReplacer.Replace(name)
-		decoded, err := base64.RawURLEncoding.DecodeString(base64Str)
-		if err != nil {
-			return "", err
-		}
-		return string(decoded), nil
+	if name == dirMarker {
+		return "", nil
 	}
-
-	// Handle plain base64
-	decoded, err := base64.RawURLEncoding.DecodeString(name)
+	// Directory components carry the marker at their end (older caches have none); the
+	// marker is not valid anywhere else.
+	var encoded strings.Builder
+	components := strings.Split(name, string(filepath.Separator))
+	offset := 0
+	for i, component := range components {
+		if i < len(components)-1 {
+			component = strings.TrimSuffix(component, dirMarker)
+		}
+		if at := strings.Index(component, dirMarker); at >= 0 {
+			return "", base64.CorruptInputError(offset + at)
+		}
+		encoded.WriteString(component)
+		offset += len(component)
+	}
+	decoded, err := base64.RawURLEncoding.DecodeString(encoded.String())
 	if err != nil {
 		return "", err
 	}
